@@ -197,6 +197,10 @@ func (u *unmarshaler) Unmarshal(b *bufio.Reader) (WarcRecord, int64, *Validation
 	} else if err == io.EOF {
 		err = fmt.Errorf("unexpected end of record. Expected %q, was %q", crlfcrlf, buf)
 		_, _ = r.Discard(len(buf))
+	} else if err == nil {
+		// The block is followed by something else than the end of record marker, e.g. because Content-Length is too small.
+		// Nothing is discarded so that the next call can search for the start of the next record.
+		err = fmt.Errorf("missing end of record marker. Expected %q, was %q", crlfcrlf, buf)
 	}
 	if err != nil {
 		switch u.opts.errSpec {
